@@ -6,15 +6,14 @@
 extern const char *cqv_strdup_src;
 extern char *cqv_strdup_ret;
 extern int cqv_strdup_calls, cqv_arena_live, cqv_error_sets;
-extern struct cqv_keep_s { const void *obj; size_t off; size_t len; } cqv_keep[10];
-#include <stddef.h>
-#define KEEP(i, o, f, l) (cqv_keep[i].obj = (o), cqv_keep[i].off = (f), cqv_keep[i].len = (l))
-#define EOFF(idx, fld) ((size_t)(idx) * sizeof(parquet_schema_element_t) + offsetof(parquet_schema_element_t, fld))
-#include "src/metadata/schema.c"
-
+extern struct cqv_re_s { const void *obj; int kind; size_t i0, i1; } cqv_re[4];
+#define KEEP(w, o, k_, a, b) (cqv_re[w].obj = (o), cqv_re[w].kind = (k_), cqv_re[w].i0 = (a), cqv_re[w].i1 = (b))
 #ifndef CQV_SCHEMA_MAX_CAP
 #define CQV_SCHEMA_MAX_CAP (((int32_t)1 << 30) - 1)
 #endif
+int32_t cqv_gk, cqv_gj;   /* ghost indices used by the contract of schema_ensure_capacity */
+#include "src/metadata/schema.c"
+
 #define ELEM_SZ sizeof(parquet_schema_element_t)
 _Static_assert(sizeof(parquet_schema_element_t) == 80, "realloc window size in stubs/schema_stubs.c");
 
@@ -75,17 +74,12 @@ void h_add_column(void) {
   if (have_j) { old_li = s->leaf_indices[j]; old_d = s->max_def_levels[j]; old_r = s->max_rep_levels[j]; }
   char *old_root_name = s->elements[0].name;
 
+  cqv_gk = have_k ? k : 0; cqv_gj = have_j ? j : 0;
   /* positions whose preservation across realloc is observed (see stubs/schema_stubs.c) */
-  KEEP(0, s->elements, EOFF(0, name), 8);
-  KEEP(1, s->elements, EOFF(0, num_children), 4);
-  KEEP(2, s->elements, EOFF(k, name), 8);
-  KEEP(3, s->elements, EOFF(k, type), 4);
-  KEEP(4, s->elements, EOFF(k, repetition_type), 4);
-  KEEP(5, s->elements, EOFF(k, num_children), 4);
-  KEEP(6, s->elements, EOFF(k, type_length), 4);
-  KEEP(7, s->leaf_indices, (size_t)j * 4, 4);
-  KEEP(8, s->max_def_levels, (size_t)j * 2, 2);
-  KEEP(9, s->max_rep_levels, (size_t)j * 2, 2);
+  KEEP(0, s->elements, 1, 0, (size_t)cqv_gk);
+  KEEP(1, s->leaf_indices, 2, (size_t)cqv_gj, 0);
+  KEEP(2, s->max_def_levels, 3, (size_t)cqv_gj, 0);
+  KEEP(3, s->max_rep_levels, 3, (size_t)cqv_gj, 0);
 
   size_t nlen = nondet_size_t();
   __CPROVER_assume(nlen >= 1 && nlen <= CQV_MAXBUF);
@@ -93,14 +87,17 @@ void h_add_column(void) {
   __CPROVER_assume(name != NULL);
   name[nlen - 1] = 0;
   carquet_physical_type_t pt = (carquet_physical_type_t)nondet_int();
-  carquet_field_repetition_t rep = (carquet_field_repetition_t)nondet_int();
+  int rep_i = nondet_int();   /* numeric copy for the native replayer */
+  carquet_field_repetition_t rep = (carquet_field_repetition_t)rep_i;
   __CPROVER_assume(rep == CARQUET_REPETITION_REQUIRED || rep == CARQUET_REPETITION_OPTIONAL || rep == CARQUET_REPETITION_REPEATED);
   int32_t tl = nondet_i32();
   carquet_logical_type_t lt;
+  lt.id = (carquet_logical_type_id_t)nondet_int(); lt.params.decimal.precision = nondet_i32(); lt.params.decimal.scale = nondet_i32();
   _Bool have_lt = nondet_bool();
   cqv_strdup_calls = 0;
 
   carquet_status_t st = carquet_schema_add_column(s, name, pt, have_lt ? &lt : NULL, rep, tl);
+  int oom = (cqv_strdup_ret == NULL);   /* for the native replayer: the name copy failed */
 
   if (st == CARQUET_OK) {
     CQV_CANARY("add_column can succeed");
@@ -116,7 +113,10 @@ void h_add_column(void) {
     __CPROVER_assert(e->type_length == tl, "type length stored");
     __CPROVER_assert(e->num_children == 0, "a column has no children");
     __CPROVER_assert(e->has_logical_type == have_lt, "logical type presence stored");
-    __CPROVER_assert(!have_lt || (e->logical_type.id == lt.id && e->logical_type.params.decimal.precision == lt.params.decimal.precision && e->logical_type.params.decimal.scale == lt.params.decimal.scale), "logical type stored");
+    if (have_lt) {
+      __CPROVER_assert(e->logical_type.id == lt.id, "logical type id stored");
+      __CPROVER_assert(e->logical_type.params.decimal.precision == lt.params.decimal.precision && e->logical_type.params.decimal.scale == lt.params.decimal.scale, "logical type parameters stored");
+    }
     __CPROVER_assert(s->max_rep_levels[nl] == (rep == CARQUET_REPETITION_REPEATED ? 1 : 0), "max repetition level == number of REPEATED nodes on the path");
     if (have_k) {
       const parquet_schema_element_t *o = &s->elements[k];
@@ -132,7 +132,9 @@ void h_add_column(void) {
     __CPROVER_assert(s->elements[ne].name != NULL, "C19: success means fully updated state (name copy not lost)");
 #endif
   } else {
+#ifndef CQV_NOGROW
     CQV_CANARY("add_column can fail");
+#endif
 #if CQV_PART == 2
     check_rep(s);
     __CPROVER_assert(s->num_elements == ne && s->num_leaves == nl, "C19: on error the schema still describes the same columns");
@@ -140,8 +142,10 @@ void h_add_column(void) {
     if (have_j) __CPROVER_assert(s->leaf_indices[j] == old_li && s->max_def_levels[j] == old_d && s->max_rep_levels[j] == old_r, "C19: on error earlier leaves are kept");
 #endif
   }
+#ifndef X_NOFREE
   carquet_schema_free(s);   /* the handle can still be freed normally */
   __CPROVER_assert(cqv_arena_live == 0, "free destroys the arena");
+#endif
   free(name);
   CQV_CANARY("add_column harness end");
 }
